@@ -40,16 +40,27 @@ Theorem C06_spec_decidable : forall cols h tro label p,
   spec_pairb cols h tro label p = true <-> uin p (candidates cols h tro label).
 Proof. exact spec_pairb_iff. Qed.
 
-(* list level: in target-only mode each pair is listed once, in one orientation ... *)
-Theorem C06_target_only_once : forall cols h tro label, NoDup cols -> is_tonly tro = true ->
+(* list level (code as of b3d9d15: the diagonal list skips pairs already listed): with duplicate-free columns the candidate
+   list is duplicate-free and holds one orientation of each pair, IN EVERY MODE ... *)
+Theorem C06_listed_once : forall cols h tro label, NoDup cols ->
   NoDup (candidates cols h tro label) /\
   (forall a b, In (a, b) (candidates cols h tro label) -> In (b, a) (candidates cols h tro label) -> a = b).
 Proof. exact cands_once. Qed.
 
-(* ... while in pairwise mode every non-label self-pair is listed twice (cwr + diagonal list), all others once *)
+Theorem C06_target_only_once : forall cols h tro label, NoDup cols -> is_tonly tro = true ->
+  NoDup (candidates cols h tro label) /\
+  (forall a b, In (a, b) (candidates cols h tro label) -> In (b, a) (candidates cols h tro label) -> a = b).
+Proof. intros cols h tro label H _. exact (cands_once cols h tro label H). Qed.
+
+(* ... hence every requested pair is listed exactly once and nothing else is listed: target-only, pairwise, and 3mr
+   (non-relation pairs once, {rel,label} once, (rel,rel) once when not target-only, relation columns never with another column) *)
+Theorem C06_multiplicity : forall cols h tro label p, NoDup cols ->
+  ucount p (candidates cols h tro label) = if spec_pairb cols h tro label p then 1 else 0.
+Proof. exact cands_multiplicity. Qed.
+
 Theorem C06_pairwise_multiplicity : forall cols h tro label a b,
   NoDup cols -> is_3mr h = false -> is_tonly tro = false -> In a cols -> In b cols ->
-  ucount (a, b) (candidates cols h tro label) = if str_eqb a b && negb (str_eqb a label) then 2 else 1.
+  ucount (a, b) (candidates cols h tro label) = 1.
 Proof. exact pairwise_multiplicity. Qed.
 
 (* the 3mr clamp *)
@@ -83,14 +94,45 @@ Theorem C06_mirrored : forall cols h tro label cap rows, is_const h = false ->
     /\ length rows = 2 * slice_len (length (candidates cols h tro label)) (eff_cap h cap).
 Proof. exact batch_mirrored. Qed.
 
-(* Constant: one row per selected combination, score 0, no mirror; one row per pair in target-only mode *)
-Theorem C06_constant_once : forall cols h tro label cap rows, is_const h = true ->
-  valid_batch cols h tro label cap rows ->
-  selected_ok (candidates cols h tro label) (eff_cap h cap) (map rp rows)
+(* Constant: one row per selected combination, score 0, no mirror; with duplicate-free columns "lists each pair once" is
+   literally true in every mode (at most one row per unordered pair), also under the reference-model filter *)
+Theorem C06_constant_once : forall cols h tro label cap refs rows, is_const h = true ->
+  valid_batch_ref cols h tro label cap refs rows ->
+  selected_ok (ref_filter refs (candidates cols h tro label)) (eff_cap h cap) (map rp rows)
   /\ (forall r, In r rows -> snd r = 0%N)
-  /\ length rows = slice_len (length (candidates cols h tro label)) (eff_cap h cap)
-  /\ (NoDup cols -> is_tonly tro = true -> forall p, ucount p (map rp rows) <= 1).
+  /\ length rows = slice_len (length (ref_filter refs (candidates cols h tro label))) (eff_cap h cap)
+  /\ (NoDup cols -> forall p, ucount p (map rp rows) <= 1).
 Proof. exact constant_once. Qed.
+
+(* prior heuristics (surrogate-SGD / -SVM / -SGD-RP with a reference model JSON): [refs] = ref_names h (Some features);
+   [valid_batch] is the case refs = [] *)
+Theorem C06_valid_batch_no_reference : forall cols h tro label cap rows,
+  valid_batch cols h tro label cap rows <-> valid_batch_ref cols h tro label cap [] rows.
+Proof. exact valid_batch_is_ref_nil. Qed.
+
+Theorem C06_ref_filter_set : forall refs cands a b,
+  uin (a, b) (ref_filter refs cands) <-> uin (a, b) cands /\ ~ In a refs /\ ~ In b refs.
+Proof. exact uin_ref_filter. Qed.
+
+(* evaluated pairs are requested pairs that touch no reference feature ... *)
+Theorem C06_ref_requested : forall cols h tro label cap refs rows, In label cols ->
+  valid_batch_ref cols h tro label cap refs rows ->
+  forall a b s, In (a, b, s) rows ->
+    spec_pairb cols h tro label (a, b) = true /\ ~ In a refs /\ ~ In b refs /\ In a cols /\ In b cols.
+Proof. exact batch_ref_requested. Qed.
+
+(* ... reduced only by the cap: all clauses relative to the filtered list, and completeness when the cap does not bind *)
+Theorem C06_ref_batch_spec : forall cols h tro label cap refs rows, In label cols ->
+  valid_batch_ref cols h tro label cap refs rows ->
+  rows_spec cols h (ref_filter refs (candidates cols h tro label)) (eff_cap h cap) rows.
+Proof. exact batch_ref_rows_spec. Qed.
+
+Theorem C06_ref_complete : forall cols h tro label cap refs rows,
+  (Z.of_nat (length (ref_filter refs (candidates cols h tro label))) <= eff_cap h cap)%Z ->
+  valid_batch_ref cols h tro label cap refs rows ->
+  forall a b, spec_pairb cols h tro label (a, b) = true -> ~ In a refs -> ~ In b refs ->
+    exists s, In (a, b, s) rows \/ In (b, a, s) rows.
+Proof. exact batch_ref_complete. Qed.
 
 (* no row mentions a column outside the frame; every row is a requested pair *)
 Theorem C06_closed : forall cols h tro label cap rows, In label cols ->
@@ -125,11 +167,11 @@ Proof. exact cands_okb_fast_eq. Qed.
 Theorem C06_check_sound : forall c o, In (c_label c) (c_cols c) -> C06_check c o = true ->
   (forall p, uin p (o_cands o) <-> uin p (C06_cands c))
   /\ o_cap o = eff_cap (c_heur c) (c_cap c)
-  /\ Forall (rows_spec (c_cols c) (c_heur c) (o_cands o) (o_cap o)) (o_rows o).
+  /\ Forall (rows_spec (c_cols c) (c_heur c) (ref_filter (C06_refs c) (o_cands o)) (o_cap o)) (o_rows o).
 Proof. exact check_sound. Qed.
 
 Theorem C06_model_ok : forall c scores, In (c_label c) (c_cols c) ->
-  (forall e s, In (e, s) (combine (select_run [] (C06_cands c) (eff_cap (c_heur c) (c_cap c)) (c_batches c)) scores) ->
+  (forall e s, In (e, s) (combine (select_run [] (ref_filter (C06_refs c) (C06_cands c)) (eff_cap (c_heur c) (c_cap c)) (c_batches c)) scores) ->
                length s = length e) ->
   C06_check c (C06_model c scores) = true.
 Proof. exact model_ok. Qed.
@@ -144,7 +186,9 @@ Print Assumptions C06_target_only.
 Print Assumptions C06_pairwise.
 Print Assumptions C06_3mr.
 Print Assumptions C06_spec_decidable.
+Print Assumptions C06_listed_once.
 Print Assumptions C06_target_only_once.
+Print Assumptions C06_multiplicity.
 Print Assumptions C06_pairwise_multiplicity.
 Print Assumptions C06_clamp.
 Print Assumptions C06_selected.
@@ -152,6 +196,11 @@ Print Assumptions C06_selected_min.
 Print Assumptions C06_transcription_selected.
 Print Assumptions C06_mirrored.
 Print Assumptions C06_constant_once.
+Print Assumptions C06_valid_batch_no_reference.
+Print Assumptions C06_ref_filter_set.
+Print Assumptions C06_ref_requested.
+Print Assumptions C06_ref_batch_spec.
+Print Assumptions C06_ref_complete.
 Print Assumptions C06_closed.
 Print Assumptions C06_requested.
 Print Assumptions C06_batch_spec.
